@@ -1119,17 +1119,19 @@ namespace chaiscript {
         }
 
         void process_unicode() {
-          const auto ch = static_cast<uint32_t>(std::stoi(hex_matches, nullptr, 16));
           const auto match_size = hex_matches.size();
-          hex_matches.clear();
-          is_escaped = false;
           const auto u_size = unicode_size;
           unicode_size = 0;
+          is_escaped = false;
 
           char buf[4];
           if (u_size != match_size) {
+            hex_matches.clear();
             throw exception::eval_error("Incomplete unicode escape sequence");
           }
+          // exactly 4 or 8 hex digits at this point: the value always fits an unsigned long
+          const auto ch = static_cast<uint32_t>(std::stoul(hex_matches, nullptr, 16));
+          hex_matches.clear();
           if (u_size == 4 && ch >= 0xD800 && ch <= 0xDFFF) {
             throw exception::eval_error("Invalid 16 bit universal character");
           }
